@@ -84,7 +84,9 @@ class Destinations(object):
         is_destination_error_message = (
             message.get("message_type", None) == DESTINATION_FAILURE
         )
-        for dest in self._destinations:
+        # Iterate over a snapshot: a destination may add or remove
+        # destinations (including itself) while it is being called.
+        for dest in list(self._destinations):
             try:
                 dest(message)
             except Exception as e:
